@@ -39,8 +39,9 @@ type forged struct {
 }
 
 type byzStep struct {
-	ms     int
-	poison bool
+	ms         int
+	poison     bool
+	transplant bool
 }
 
 // batchCtx fixes the choices that all validators of one multi-validator batch share.
@@ -474,6 +475,7 @@ func (b *byzDriver) schedule(actions int) {
 	if w.hasKind("sync") && len(w.vals) > 1 && b.rng.Intn(5) != 0 {
 		b.at = append(b.at, byzStep{ms: -350 + b.rng.Intn(300), poison: true}, byzStep{ms: 200 + b.rng.Intn(2000), poison: true})
 	}
+	b.at = append(b.at, byzStep{ms: 600 + b.rng.Intn(1500), transplant: true}, byzStep{ms: 2000 + b.rng.Intn(2000), transplant: true})
 	sort.Slice(b.at, func(i, j int) bool { return b.at[i].ms < b.at[j].ms })
 }
 
@@ -486,10 +488,225 @@ func (b *byzDriver) run() {
 		if w.stopped.Load() {
 			return
 		}
-		if st.poison {
+		if st.transplant {
+			b.transplant(false)
+		} else if st.poison {
 			b.poison()
 		} else {
 			b.act()
 		}
 	}
+}
+
+// ---- transplanted signatures ----
+//
+// The Byzantine identity records every partial signature it sees on the wire and later re-sends
+// those signatures — with the share indices they were made for, its own and other members' — attached
+// to OTHER signed data: (a) the same duty type one or two slots later with conflicting content,
+// (b) the same duty and slot but another validator of the cluster, (c) another duty type. A
+// signature is only valid for the object it was made for, so every such partial has to be refused;
+// if a node ever accepted a signature because it "has verified it before", t of them would
+// aggregate to the genuine group signature of the original object and be attached to the new one.
+
+var kindOfDuty = map[core.DutyType]string{core.DutyAttester: "attester", core.DutyProposer: "proposer", core.DutyRandao: "randao", core.DutySyncMessage: "sync", core.DutyExit: "exit"}
+
+type sigGroup struct {
+	duty   core.Duty
+	pk     core.PubKey
+	root   [32]byte
+	shares map[int]eth2p0.BLSSignature
+}
+
+// observedGroups groups the tapped partial signatures by (duty, validator, message root).
+func (b *byzDriver) observedGroups() []*sigGroup {
+	idx := map[string]*sigGroup{}
+	for _, tm := range b.w.tap.snapshot() {
+		duty := core.DutyFromProto(tm.Msg.GetDuty())
+		if _, ok := kindOfDuty[duty.Type]; !ok {
+			continue
+		}
+		set, err := core.ParSignedDataSetFromProto(duty.Type, tm.Msg.GetDataSet())
+		if err != nil {
+			continue
+		}
+		for pk, par := range set {
+			if _, ok := b.w.byCore[pk]; !ok {
+				continue
+			}
+			root, err := par.MessageRoot()
+			if err != nil {
+				continue
+			}
+			key := fmt.Sprintf("%v/%s/%x", duty, pk, root)
+			g := idx[key]
+			if g == nil {
+				g = &sigGroup{duty: duty, pk: pk, root: root, shares: map[int]eth2p0.BLSSignature{}}
+				idx[key] = g
+			}
+			if _, ok := g.shares[par.ShareIdx]; !ok {
+				g.shares[par.ShareIdx] = par.Signature().ToETH2()
+			}
+		}
+	}
+	keys := make([]string, 0, len(idx))
+	for k := range idx {
+		keys = append(keys, k)
+	}
+	sort.Strings(keys)
+	out := make([]*sigGroup, 0, len(keys))
+	for _, k := range keys {
+		out = append(out, idx[k])
+	}
+
+	return out
+}
+
+// otherObject builds an unsigned object of kind for validator v at slot (content differs from
+// anything honest nodes sign) and the duty it is exchanged under.
+func (b *byzDriver) otherObject(kind string, v *valInfo, slot uint64) (any, core.Duty, error) {
+	w := b.w
+	ep := w.ch.epochOf(slot)
+	switch kind {
+	case "attester":
+		d := w.candidateAttData(b.idx, v)
+		d.Slot = eth2p0.Slot(slot)
+		d.BeaconBlockRoot = b.randRoot()
+		d.Target.Epoch, d.Source.Epoch = eth2p0.Epoch(ep), eth2p0.Epoch(ep-1)
+		d.Target.Root = b.randRoot()
+
+		return w.buildAttestation(v, d), core.NewAttesterDuty(slot), nil
+	case "proposer":
+		var rr eth2p0.BLSSignature
+		b.rng.Read(rr[:])
+		up, err := w.candidateProposal(3000+w.logical(b.idx)*43+b.rng.Intn(7), v, rr)
+		if err != nil {
+			return nil, core.Duty{}, err
+		}
+		sp, err := signedOf(up)
+		if err != nil {
+			return nil, core.Duty{}, err
+		}
+		sb, err := signedBlockOf(sp)
+		if err != nil {
+			return nil, core.Duty{}, err
+		}
+		sb.Elem().FieldByName("Message").Elem().FieldByName("Slot").SetUint(slot)
+
+		return sp, core.NewProposerDuty(slot), nil
+	case "randao":
+		return &eth2util.SignedEpoch{Epoch: eth2p0.Epoch(ep + 1)}, core.NewRandaoDuty(slot), nil
+	case "sync":
+		return &altair.SyncCommitteeMessage{Slot: eth2p0.Slot(slot), ValidatorIndex: v.Idx, BeaconBlockRoot: b.randRoot()}, core.NewSyncMessageDuty(slot), nil
+	case "exit":
+		e := ep + 2 + uint64(b.rng.Intn(2))
+		return &eth2p0.SignedVoluntaryExit{Message: &eth2p0.VoluntaryExit{Epoch: eth2p0.Epoch(e), ValidatorIndex: v.Idx}}, core.NewVoluntaryExit(w.ch.spe * e), nil
+	}
+
+	return nil, core.Duty{}, fmt.Errorf("unknown kind %s", kind)
+}
+
+// transplant re-sends observed signatures attached to other signed data. full demands a group
+// with at least t distinct share indices (the end-of-case run); otherwise whatever was seen so far
+// is used, which also covers "before the honest nodes processed the original duty".
+func (b *byzDriver) transplant(full bool) {
+	w := b.w
+	b.mu.Lock()
+	defer b.mu.Unlock()
+	groups := b.observedGroups()
+	var cands []*sigGroup
+	for _, g := range groups {
+		if len(g.shares) >= w.k {
+			cands = append(cands, g)
+		}
+	}
+	if len(cands) == 0 {
+		if full {
+			w.r.Count("byz/transplant/no-threshold-group-observed", 1)
+		}
+		cands = groups
+	}
+	if len(cands) == 0 {
+		return
+	}
+	g := cands[b.rng.Intn(len(cands))]
+	v := w.byCore[g.pk]
+	kind := kindOfDuty[g.duty.Type]
+	variant := "a-same-type-later-slot"
+	switch x := b.rng.Intn(10); {
+	case x >= 8 && len(w.vals) > 1:
+		variant = "b-other-validator-same-slot"
+	case x >= 6:
+		variant = "c-other-duty-type"
+	}
+	var item any
+	var duty core.Duty
+	var err error
+	tv := v
+	switch variant {
+	case "a-same-type-later-slot":
+		item, duty, err = b.otherObject(kind, v, w.slot+1+uint64(b.rng.Intn(2)))
+	case "b-other-validator-same-slot":
+		for _, o := range w.vals {
+			if o != v {
+				tv = o
+			}
+		}
+		item, duty, err = b.build(kind, tv, 2)
+	default:
+		others := []string{}
+		for _, k := range []string{"attester", "proposer", "randao", "sync", "exit"} {
+			if k != kind {
+				others = append(others, k)
+			}
+		}
+		item, duty, err = b.otherObject(others[b.rng.Intn(len(others))], v, w.slot+1+uint64(b.rng.Intn(2)))
+	}
+	if err != nil {
+		w.r.Count("byz/forge-error", 1)
+		return
+	}
+	shares := make([]int, 0, len(g.shares))
+	for s := range g.shares {
+		shares = append(shares, s)
+	}
+	sort.Ints(shares)
+	var msgs []*pbv1.ParSigExMsg
+	for _, s := range shares {
+		it := deepCopy(item)
+		if err := setSig(it, g.shares[s]); err != nil {
+			w.r.Count("byz/forge-error", 1)
+			return
+		}
+		sd, err := toCore(it)
+		if err != nil {
+			w.r.Count("byz/forge-error", 1)
+			return
+		}
+		m, err := b.msg(&forged{Duty: duty, Set: core.ParSignedDataSet{tv.Core: core.ParSignedData{SignedData: sd, ShareIdx: s}}})
+		if err != nil {
+			w.r.Count("byz/encode-error", 1)
+			return
+		}
+		msgs = append(msgs, m)
+	}
+	w.r.Count("byz/sent/transplant/"+variant, int64(len(msgs)))
+	if len(shares) >= w.k {
+		w.r.Count("transplanted_sets_with_threshold_shares", 1)
+	}
+	w.mon.note("byz %d: transplant %s: %d signatures of %v %s onto %v", b.idx, variant, len(msgs), g.duty, v.Name, duty)
+	var wg sync.WaitGroup
+	for tgt := 0; tgt < w.n; tgt++ {
+		if tgt == b.idx || !w.hasStack(tgt) || w.sched.isCrashed(tgt) || w.sched.isCrashed(b.idx) {
+			continue
+		}
+		order := b.rng.Perm(len(msgs))
+		wg.Add(1)
+		go func(tgt int, order []int) {
+			defer wg.Done()
+			for _, i := range order {
+				w.net.Inject(w.ids[b.idx], w.ids[tgt], protoParSigEx, msgs[i])
+			}
+		}(tgt, order)
+	}
+	wg.Wait()
 }
